@@ -534,12 +534,19 @@ class Machine:
         return "ok:true" if ra.vals == rb.vals else "ok:false"
 
     def op_ssz_enc(self, a):
-        """ssz_enc A -> ok:<serialize(vals)>|<its length>."""
+        """ssz_enc A -> ok:<serialize(vals)>|<its length>|f=<is_ssz_fixed_len>:<ssz_fixed_len>."""
         reg = self.source(a)
         if reg is None:
             return BADREG
         data = ssz_ref.serialize(self.cfg.kind, reg.vals)
-        return "ok:%s|%d" % (fmt_hex(data), len(data))
+        # static half of Encode: a List is variable-size (ssz_fixed_len() = 4, one offset); a Vector is fixed-size
+        # iff its elements are, and then N elements long
+        size = ssz_ref.SIZE[self.cfg.kind]
+        if reg.coll == "V" and size is not None:
+            fixed, fixed_len = 1, size * self.cfg.n
+        else:
+            fixed, fixed_len = 0, ssz_ref.BYTES_PER_LENGTH_OFFSET
+        return "ok:%s|%d|f=%d:%d" % (fmt_hex(data), len(data), fixed, fixed_len)
 
     def op_serde_ser(self, a):
         """serde_ser A -> ok:<vals>."""
